@@ -14,6 +14,7 @@ type c07Conn struct {
 	open     bool
 	client   int64 // id of the last successful handshake on this connection, 0 if none
 	zombie   bool  // re-registered under the same id: the record in the registry is a fresh unauthenticated one
+	tunnel   bool  // authenticated as a tunnel connection: no further control traffic on it in this history
 	released bool  // closed by its own disconnect or by the stale sweep (both call CloseConnection); a kicked or
 	// superseded connection is only evicted from the registry with its stream closed - its read loop,
 	// which is not part of this harness, then notices and releases the rest
@@ -51,7 +52,7 @@ func Harness_C07_histories() {
 				continue
 			}
 			c := conns[verif_Choose(len(conns))]
-			if !c.open || c.zombie {
+			if !c.open || c.zombie || c.tunnel {
 				continue
 			}
 			if verif_Bool() {
@@ -63,6 +64,17 @@ func Harness_C07_histories() {
 				break
 			}
 			id := clients[verif_Choose(2)]
+			if c.client == 0 && verif_Bool() {
+				// the client's second connection: it authenticates as a TUNNEL connection - the
+				// client's control connection (if any) stays what every lookup returns
+				before := sm.GetControlConnectionByClientID(id)
+				err := vsHandshake(sm, c.id, &packet.HandshakeRequest{ClientID: id, ConnectionType: "tunnel", Protocol: "tcp"})
+				verif_Assert("C07.tunnel_handshake.ok", err == nil)
+				verif_Assert("C07.tunnel_handshake.control_index_untouched", sm.GetControlConnectionByClientID(id) == before)
+				c.tunnel = true
+				verif_Cover("C07.tunnel_handshake")
+				break
+			}
 			err := vsHandshake(sm, c.id, &packet.HandshakeRequest{ClientID: id, ConnectionType: "control", Protocol: "tcp"})
 			verif_Assert("C07.handshake.ok", err == nil)
 			if c.client != 0 && c.client != id {
@@ -99,7 +111,7 @@ func Harness_C07_histories() {
 				continue
 			}
 			c := conns[verif_Choose(len(conns))]
-			if c.open && !c.zombie {
+			if c.open && !c.zombie && !c.tunnel {
 				vsHeartbeat(sm, c.id)
 			}
 		case 5: // kick: whoever holds the client's slot is evicted in favour of a named connection
